@@ -369,6 +369,10 @@ class Churner(threading.Thread):
         try:
             for ntrack, ending in self.plan:
                 c = wire.RawClient(self.fx.location, timeout=8.0)
+                if ending == "instant":
+                    # a connection that ends before it has said anything: its job is over almost as soon as the accept loop has handed it out
+                    c.close(rst=(ntrack % 2 == 1))
+                    continue
                 try:
                     m = c.handshake("svc", ser)
                 except (EOFError, OSError) as x:
@@ -390,7 +394,7 @@ class Churner(threading.Thread):
 
 def run_churn(fx, world, rec, r, sername, nthreads, rounds, plans=None):
     if plans is None:
-        plans = [[(r.choice([0, 1, 2]), r.choice(["fin", "fin", "rst", "half"])) for _ in range(rounds)] for _ in range(nthreads)]
+        plans = [[(r.choice([0, 1, 2]), r.choice(["fin", "fin", "rst", "half", "instant", "instant"])) for _ in range(rounds)] for _ in range(nthreads)]
     nthreads = len(plans)
     pay = {"churn": plans, "servertype": fx.servertype, "serializer": sername}
     ths = [Churner(fx, sername, pl) for pl in plans]
@@ -476,7 +480,7 @@ def plan(tier, seed):
                 shards.append({"servertype": st, "serializer": sername, "kind": "main", "rep": rep, "linger": 0.0 if (rep + len(sername)) % 2 else 30.0})
         shards.append({"servertype": st, "serializer": "serpent", "kind": "timeout"})
         for rep in range(1 if tier == "quick" else 6):
-            shards.append({"servertype": st, "serializer": "marshal", "kind": "churn", "rep": rep, "histories": 25 if tier == "quick" else 400})
+            shards.append({"servertype": st, "serializer": "marshal", "kind": "churn", "rep": rep, "histories": 40 if tier == "quick" else 400})
     return shards
 
 
@@ -501,7 +505,7 @@ def run_shard(shard, rec):
     if shard["kind"] == "churn":
         fx, world = make_env(P, shard["servertype"], 0.0, 30.0, pool=(1, 12))
         try:
-            yieldinj.enable(("Pyro5/svr_threads.py", "Pyro5/svr_multiplex.py", "Pyro5/socketutil.py"), 0.05, rec.seed * 13 + shard["rep"])
+            yieldinj.enable(("Pyro5/svr_threads.py", "Pyro5/svr_multiplex.py"), 0.2, rec.seed * 13 + shard["rep"], max_sleep=0.003)
             for h in range(shard["histories"]):
                 if rec.should_stop():
                     break
@@ -548,7 +552,7 @@ def replay(payload, rec):
         # free-running threads: the recorded plans are re-run (with yield injection) until the violation shows again or 60 attempts held
         fx, world = make_env(P, st, 0.0, 30.0, pool=(1, 12))
         try:
-            yieldinj.enable(("Pyro5/svr_threads.py", "Pyro5/svr_multiplex.py", "Pyro5/socketutil.py"), 0.05, 1)
+            yieldinj.enable(("Pyro5/svr_threads.py", "Pyro5/svr_multiplex.py"), 0.2, 1, max_sleep=0.003)
             for _ in range(60):
                 if not run_churn(fx, world, rec, gen.rng(0, "replay"), sername, 0, 0, plans=[[tuple(x) for x in pl] for pl in c["churn"]]):
                     break
